@@ -60,6 +60,9 @@ int main(int argc, char **argv) {
   if (const char *d = std::getenv("VERIF_CASE_TIMEOUT_S")) caseTimeout = atoi(d);
   auto start = std::chrono::steady_clock::now();
 
+  double shrinkBudget = 40;
+  if (const char *d = std::getenv("VERIF_SHRINK_S")) shrinkBudget = atof(d);
+  auto failTime = std::chrono::steady_clock::now();
   Report R;
   long long skipped = 0;
   bool failedOnce = false;
@@ -85,6 +88,15 @@ int main(int argc, char **argv) {
         return;
       }
     }
+    if (failedOnce && shrinkBudget > 0) {
+      // bound the time spent shrinking: once exceeded every further candidate
+      // is reported as passing, so rapidcheck stops at the smallest failure
+      // found so far (which is already saved)
+      double el = std::chrono::duration<double>(
+                      std::chrono::steady_clock::now() - failTime)
+                      .count();
+      if (el > shrinkBudget) return;
+    }
     publishCurrent(words);
     alarm(caseTimeout);  // a case that does not end is killed: SIGALRM
     Tape t(words);
@@ -97,6 +109,7 @@ int main(int argc, char **argv) {
     else if (!R.frozen && R.evaluations % 1024 == 0)
       R.write(prefix);
     if (!good) {
+      if (!failedOnce) failTime = std::chrono::steady_clock::now();
       failedOnce = true;
       R.frozen = true;  // shrinking starts: stop recording evidence
       lastFail = words;
